@@ -162,6 +162,20 @@ int main(int argc, char** argv) {
   sd::CacheAlloc::poison_on_free = true;   // a worker still using an mjData that the compiler already deleted reads garbage
   mju_user_error = c33_error; mju_user_warning = nd::on_warning;
   setvbuf(stdout, 0, _IOLBF, 0);
+  {
+    // process-global lazy initialisation in the compiler (asset cache, registries, function-local statics) must not depend on
+    // which run of a batch touches it first: one threaded compile in a simulation of its own before the first case
+    Rng rw(12345); int a, b, c;
+    std::string wx = gen_xml(rw, &a, &b, &c, {});
+    vsim::Config c0; c0.seed = 1; c0.policy = vsim::P_STICKY; c0.sticky_ppm = 0; c0.hw_concurrency = 4;
+    vsim::begin(c0);
+    char werr[500] = "";
+    for (int pass = 0; pass < 2; pass++) {
+      mjSpec* ws = mj_parseXMLString(wx.c_str(), nullptr, werr, sizeof werr);
+      if (ws) { ws->compiler.usethread = pass; mjModel* wm = mj_compile(ws, nullptr); if (wm) { mjData* wd = mj_makeData(wm); mj_step(wm, wd); mj_recompile(ws, nullptr, wm, wd); mjSpec* wc = mj_copySpec(ws); mj_deleteSpec(wc); mj_deleteData(wd); mj_deleteModel(wm); } mj_deleteSpec(ws); }
+    }
+    vsim::end();
+  }
   uint64_t est_len = 2000;
   for (uint64_t s = sd::g_args.seed0; s < sd::g_args.seed0 + sd::g_args.n; s++) {
     Rng r(s);
